@@ -102,9 +102,15 @@ def run(R, tier, seed, driver_ok):
                 return o_gl(emp_cov, *a, **k)
             ms.graphical_lasso = spy_gl
             try:
-                with warnings.catch_warnings():
-                    warnings.simplefilter('ignore')
-                    est = SDML(prior=prior, balance_param=balance, sparsity_param=lam, random_state=sd).fit(pairs, yy)
+                with warnings.catch_warnings(record=True) as wl_fit:
+                    warnings.simplefilter('always')
+                    if rep % 2 == 1:
+                        # the same pairs given as indicators into a preprocessor array that also holds rows no pair refers to
+                        pool_ = np.vstack([X, rng.randn(7, d) * 4 + 2])
+                        est = SDML(prior=prior, balance_param=balance, sparsity_param=lam, random_state=sd, preprocessor=pool_).fit(idx, yy)
+                        case['given_as'] = 'indicators + array preprocessor with unreferenced rows'
+                    else:
+                        est = SDML(prior=prior, balance_param=balance, sparsity_param=lam, random_state=sd).fit(pairs, yy)
             except RuntimeError:
                 outcome = 'RuntimeError'
             except Exception as e:
@@ -134,8 +140,18 @@ def run(R, tier, seed, driver_ok):
         M1, f1 = ista(E, lam, M)
         M2, f2 = ista(E, lam, np.linalg.inv(E + lam * np.eye(d)))
         f_best = min(f1, f2)
-        if f_impl > f_best + 2e-3 * max(1.0, abs(f_best)):
-            R.violation('SDML/not-minimal', f'objective at the learned M ({f_impl:.8g}) exceeds an independently computed solution ({f_best:.8g})', case)
+        from sklearn.exceptions import ConvergenceWarning
+        not_converged = any(issubclass(w_.category, ConvergenceWarning) for w_ in wl_fit)
+        if not_converged:
+            R.count('graphical-lasso-did-not-converge (ConvergenceWarning)')
+        if f_impl > f_best + 2e-3 * max(1.0, abs(f_best)) and not_converged:
+            # the external solver stopped at its iteration limit and SDML returns that iterate: the recorded finding F3
+            R.violation('SDML/not-minimal/solver-did-not-converge', f'objective at the learned M ({f_impl:.8g}) exceeds an independently computed solution ({f_best:.8g}); scikit-learn\'s graphical lasso reported non-convergence', case)
+        elif f_impl > f_best + 2e-3 * max(1.0, abs(f_best)):
+            with warnings.catch_warnings():
+                warnings.simplefilter('ignore')
+                Mform = SDML(prior=prior, balance_param=balance, sparsity_param=lam, random_state=sd).fit(pairs, yy).get_mahalanobis_matrix()
+            R.violation('SDML/not-minimal', f'objective at the learned M ({f_impl:.8g}) exceeds an independently computed solution ({f_best:.8g}); [diagnostic: formed-pairs fit objective {objective(E, Mform, lam):.8g}, E_impl vs E {np.abs(store.get("E_impl") - E).max() if store.get("E_impl") is not None else None}]', case)
         lines.append(f'sdml_eval {d} {len(yy)} {bits(Pinv)} {f2b(balance)} {f2b(lam)} {bits(diff)} {bits(yy.astype(float))} {bits(M)}')
         meta.append((E, f_impl, lam, M, case, store.get('E_impl')))
     if driver_ok and lines:
